@@ -1,5 +1,270 @@
+import Casket.Model.TLSGroup
+import Casket.Spec.TLSGroup
+import Casket.Model.VHost
 import Driver.Proto
-/- Streams of C06 (stub: not built yet). -/
+import Driver.C01
+/-
+Streams of C06.
+  c06.select  aesni  cfgs  snihex  localip
+     cfgs    = ';' list of  hosthex|enabled|min|max|ciphers|curves|prefer|clientAuth|clientCerts|alpn|disableSNI
+               (ciphers, curves, clientCerts: comma list of decimals; alpn: comma list of hex)
+     localip = '-' (no connection) or hex
+     out     = err:<0 mix|1 build|2 incompatible> | plain | nil | any
+             | cfg TAB idx TAB min TAB max TAB ciphers TAB curves TAB prefer TAB clientAuth TAB alpn
+  c06.defaults aesni cfg          out = min TAB max TAB ciphers TAB curves TAB prefer   (SetDefaultTLSParams)
+  c06.snihost  sites cfgs hosthex pathhex tls snihex
+     sites as in c01.route, cfgs: per site clientAuth|disableSNI (';' list)
+     out = site TAB idx | forbidden | notfound TAB status
+-/
 namespace Driver.C06
-def streams : List Driver.Stream := []
+open Casket.TLSGroup
+open Casket.VHost (Bytes)
+
+def bytes := Driver.C01.bytes
+def hexB := Driver.C01.hexB
+
+def bytesList (s : String) : Option (List Bytes) :=
+  if s = "" then some [] else (s.splitOn ",").mapM bytes
+
+def parseCfg (s : String) : Option Cfg :=
+  match s.splitOn "|" with
+  | [h, en, mn, mx, cs, cv, pf, ca, cc, al, ds] => do
+    pure { hostname := ← bytes h, enabled := en == "1", minV := ← mn.toNat?, maxV := ← mx.toNat?,
+           ciphers := ← Driver.natList cs, curves := ← Driver.natList cv, preferServer := pf == "1",
+           clientAuth := ← ca.toNat?, clientCerts := ← Driver.natList cc, alpn := ← bytesList al,
+           disableSNIMatching := ds == "1" }
+  | _ => none
+
+def parseCfgs (s : String) : Option (List Cfg) :=
+  if s = "" then some [] else (s.splitOn ";").mapM parseCfg
+
+def parseLocal (s : String) : Option (Option Bytes) :=
+  if s = "-" then some none else (bytes s).map some
+
+def bool01 (b : Bool) : String := if b then "1" else "0"
+
+def showBuilt (b : Built) : String :=
+  "\t".intercalate [toString b.minV, toString b.maxV, Driver.showNatList b.ciphers, Driver.showNatList b.curves,
+    bool01 b.preferServer, toString b.clientAuth, ",".intercalate (b.nextProtos.map hexB)]
+
+def showObs : Obs → String
+  | .error c => s!"err:{c}"
+  | .plain => "plain"
+  | .nothing => "nil"
+  | .any => "any"
+  | .cfg i b => s!"cfg\t{i}\t{showBuilt b}"
+
+def parseObs (s : String) : Option Obs :=
+  match s.splitOn "\t" with
+  | ["err:0"] => some (.error 0)
+  | ["err:1"] => some (.error 1)
+  | ["err:2"] => some (.error 2)
+  | ["plain"] => some .plain
+  | ["nil"] => some .nothing
+  | ["any"] => some .any
+  | ["cfg", i, mn, mx, cs, cv, pf, ca, al] => do
+    let i ← i.toNat?
+    let mn ← mn.toNat?
+    let mx ← mx.toNat?
+    let cs ← Driver.natList cs
+    let cv ← Driver.natList cv
+    let ca ← ca.toNat?
+    let al ← bytesList al
+    pure (.cfg i { minV := mn, maxV := mx, ciphers := cs, curves := cv, preferServer := pf == "1",
+                   clientAuth := ca, nextProtos := al })
+  | _ => none
+
+structure SelCase where
+  aesni : Bool
+  cfgs : List Cfg
+  sni : Bytes
+  localIP : Option Bytes
+
+def parseSel : List String → Option SelCase
+  | [a, cs, sni, lip] => do
+    pure { aesni := a == "1", cfgs := ← parseCfgs cs, sni := ← bytes sni, localIP := ← parseLocal lip }
+  | _ => none
+
+def selectModel (f : List String) : String :=
+  match parseSel f with
+  | none => "bad-case"
+  | some c => showObs (pipeline c.aesni c.cfgs c.sni c.localIP)
+
+def selectJudge (f : List String) (out : String) : String :=
+  match parseSel f, parseObs out with
+  | some c, some o => Casket.TLSSpec.verdict c.aesni c.cfgs c.sni c.localIP o
+  | _, _ => "bad:unparsable:" ++ out
+
+def defaultsModel : List String → String
+  | [a, c] =>
+    match parseCfg c with
+    | none => "bad-case"
+    | some c =>
+      let d := setDefaults (a == "1") c
+      "\t".intercalate [toString d.minV, toString d.maxV, Driver.showNatList d.ciphers, Driver.showNatList d.curves, bool01 d.preferServer]
+  | _ => "bad-case"
+
+/-- per-site `clientAuth|disableSNI`, ';' separated -/
+def parseSniCfgs (s : String) : Option (List Cfg) :=
+  if s = "" then some [] else (s.splitOn ";").mapM fun e =>
+    match e.splitOn "|" with
+    | [ca, ds] => do
+      pure { hostname := [], enabled := true, minV := 0, maxV := 0, ciphers := [], curves := [], preferServer := false,
+             clientAuth := ← ca.toNat?, clientCerts := [], alpn := [], disableSNIMatching := ds == "1" }
+    | _ => none
+
+structure SniCase where
+  sites : List Casket.VHost.Site
+  cfgs : List Cfg
+  req : Casket.VHost.Req
+  sni : Option Bytes
+
+def parseSni : List String → Option SniCase
+  | [ss, cs, h, p, sni] => do
+    pure { sites := ← Driver.C01.parseSites ss, cfgs := ← parseSniCfgs cs,
+           req := { host := ← bytes h, path := ← bytes p, protoMajor := 1 }, sni := ← parseLocal sni }
+  | _ => none
+
+def showServed : Served → String
+  | .site i => s!"site\t{i}"
+  | .forbidden => "forbidden"
+  | .notFound st => s!"notfound\t{st}"
+
+def parseServed (s : String) : Option Served :=
+  match s.splitOn "\t" with
+  | ["site", i] => i.toNat?.map .site
+  | ["forbidden"] => some .forbidden
+  | ["notfound", st] => st.toNat?.map .notFound
+  | _ => none
+
+def sniModel (f : List String) : String :=
+  match parseSni f with
+  | none => "bad-case"
+  | some c => showServed (serveTLS c.sites c.cfgs c.req c.sni)
+
+def sniJudge (f : List String) (out : String) : String :=
+  match parseSni f, parseServed out with
+  | some c, some o => Casket.TLSSpec.sniVerdict c.cfgs c.req c.sni o
+  | _, _ => "bad:unparsable:" ++ out
+
+/-
+  c06.handshake  aesni  cfgs  snihex  cmin  cmax  localaddr
+     out = fail | ok TAB version TAB sanhex TAB requested(0|1)
+-/
+structure HsCase where
+  aesni : Bool
+  cfgs : List Cfg
+  sni : Bytes
+  cmin : Nat
+  cmax : Nat
+  la : Option Bytes
+
+def parseHs : List String → Option HsCase
+  | [a, cs, sni, mn, mx, la] => do
+    pure { aesni := a == "1", cfgs := ← parseCfgs cs, sni := ← bytes sni, cmin := ← mn.toNat?, cmax := ← mx.toNat?,
+           la := ← parseLocal la }
+  | _ => none
+
+def showHS : HS → String
+  | .fail => "fail"
+  | .ok v san r => s!"ok\t{v}\t{hexB san}\t{bool01 r}"
+
+def parseHS (s : String) : Option HS :=
+  match s.splitOn "\t" with
+  | ["fail"] => some .fail
+  | ["ok", v, san, r] => do pure (.ok (← v.toNat?) (← bytes san) (r == "1"))
+  | _ => none
+
+def hsModel (f : List String) : String :=
+  match parseHs f with
+  | none => "bad-case"
+  | some c => showHS (handshake c.aesni c.cfgs c.sni c.cmin c.cmax c.la)
+
+def hsJudge (f : List String) (out : String) : String :=
+  match parseHs f, parseHS out with
+  | some c, some o => Casket.TLSSpec.hsVerdict c.aesni c.cfgs c.sni c.la o
+  | _, _ => "bad:unparsable:" ++ out
+
+/- c06.build  aesni cfg   out = err | plain | <built fields> -/
+def buildModel : List String → String
+  | [a, c] =>
+    match parseCfg c with
+    | none => "bad-case"
+    | some c =>
+      if !c.enabled then "plain"
+      else match build (a == "1") c with
+        | none => "err"
+        | some (_, b) => showBuilt b
+  | _ => "bad-case"
+
+def buildJudge (f : List String) (out : String) : String :=
+  if out == "err" || out == "plain" then "ok"
+  else match parseObs ("cfg\t0\t" ++ out) with
+    | some (.cfg _ b) =>
+      match f with
+      | [_, c] => match parseCfg c with
+        | some c => Casket.TLSSpec.buildVerdict (some (c, b))
+        | none => "bad:unparsable:case"
+      | _ => "bad:unparsable:case"
+    | _ => "bad:unparsable:" ++ out
+
+/- c06.connect  aesni  sites  cfgs  namehex  pathhex
+     sites as in c01.route (addrHost = TLS.Hostname); cfgs as in c06.select (hostname field unused: taken from the site)
+     out = <select out: err:n|plain|nil|any|cfg TAB idx> || <served out>    (two parts joined by TAB "||" TAB) -/
+structure ConnCase where
+  aesni : Bool
+  sites : List Casket.VHost.Site
+  cfgs : List Cfg
+  name : Bytes
+  path : Bytes
+
+def parseConn : List String → Option ConnCase
+  | [a, ss, cs, n, p] => do
+    let sites ← Driver.C01.parseSites ss
+    let cfgs ← parseCfgs cs
+    if sites.length != cfgs.length then none
+    else
+      let cfgs := (sites.zip cfgs).map fun (s, c) => { c with hostname := s.addrHost }
+      pure { aesni := a == "1", sites := sites, cfgs := cfgs, name := ← bytes n, path := ← bytes p }
+  | _ => none
+
+def showSel : Obs → String
+  | .cfg i _ => s!"cfg\t{i}"
+  | o => showObs o
+
+def connModel (f : List String) : String :=
+  match parseConn f with
+  | none => "bad-case"
+  | some c =>
+    let o := connect c.aesni c.sites c.cfgs c.name c.path
+    showSel o.1 ++ "\t||\t" ++ showServed o.2
+
+def splitBars : List String → List String → List String × List String
+  | [], acc => (acc.reverse, [])
+  | "||" :: rest, acc => (acc.reverse, rest)
+  | x :: rest, acc => splitBars rest (x :: acc)
+
+def dummyBuilt : Built := { ciphers := [], curves := [], preferServer := false, minV := 0, maxV := 0, clientAuth := 0, nextProtos := [] }
+
+def connJudge (f : List String) (out : String) : String :=
+  match parseConn f with
+  | none => "bad:unparsable:case"
+  | some c =>
+    let (a, b) := splitBars (out.splitOn "\t") []
+    let sel : Option Obs := match a with
+      | ["cfg", i] => i.toNat?.map (fun i => .cfg i dummyBuilt)
+      | _ => parseObs ("\t".intercalate a)
+    match sel, parseServed ("\t".intercalate b) with
+    | some s, some v => Casket.TLSSpec.crossVerdict c.cfgs (s, v)
+    | _, _ => "bad:unparsable:" ++ out
+
+def streams : List Driver.Stream := [
+  { name := "c06.connect", model := connModel, judge := connJudge },
+  { name := "c06.build", model := buildModel, judge := buildJudge },
+  { name := "c06.handshake", model := hsModel, judge := hsJudge },
+  { name := "c06.snihost", model := sniModel, judge := sniJudge },
+  { name := "c06.select", model := selectModel, judge := selectJudge },
+  { name := "c06.defaults", model := defaultsModel, judge := fun _ _ => "ok" }
+]
+
 end Driver.C06
